@@ -42,7 +42,15 @@ func newFilePager(file string) (*filePager, error) {
 // pages start counting at 1
 func (f *filePager) page(id int, pagesize int) ([]byte, error) {
 	buf := make([]byte, pagesize)
-	_, err := f.mm.ReadAt(buf[:], int64(id-1)*int64(pagesize))
+	off := int64(id-1) * int64(pagesize)
+	if off+int64(pagesize) > int64(f.mm.Len()) {
+		// The mmap has the size the file had when we opened it, and the
+		// file can have grown since. We can't map the file again:
+		// closing any file descriptor of the file drops our locks.
+		_, err := f.f.ReadAt(buf, off)
+		return buf, err
+	}
+	_, err := f.mm.ReadAt(buf[:], off)
 	return buf, err
 }
 
